@@ -1,6 +1,7 @@
 package simsync_test
 
 import (
+	"fmt"
 	"testing"
 
 	"verif/simrt"
@@ -144,6 +145,24 @@ func TestCond(t *testing.T) {
 		})
 		if res.Outcome != simrt.Completed || !got {
 			t.Fatalf("seed %d: %v %s", seed, res.Outcome, res.Detail)
+		}
+	}
+}
+
+// simrt.Copy must keep the builtin's memmove semantics for overlapping
+// operands (insertion into a slice: copy(s[i+1:], s[i:])) on every tape.
+func TestCopyOverlap(t *testing.T) {
+	for seed := uint64(1); seed <= 200; seed++ {
+		s := simrt.New(simrt.Config{Tape: simrt.NewTape(simrt.NewRand(seed), simrt.Strategy{Kind: "uniform"})})
+		var up, down []int
+		s.Run(func() {
+			up = []int{0, 1, 2, 3, 4, 5, 6, 0}
+			simrt.Copy(up[3:], up[2:]) // shift right
+			down = []int{0, 1, 2, 3, 4, 5, 6, 7}
+			simrt.Copy(down[1:], down[3:]) // shift left
+		})
+		if fmt.Sprint(up) != "[0 1 2 2 3 4 5 6]" || fmt.Sprint(down) != "[0 3 4 5 6 7 6 7]" {
+			t.Fatalf("seed %d: overlapping copy gave %v %v", seed, up, down)
 		}
 	}
 }
